@@ -278,7 +278,19 @@ def check_trunc(recipe) -> list[Fail]:
     optional_lens = {len(text[:c_].rstrip()) for c_ in optional_cuts}
     for cut in sorted(cuts):
         damaged = text[:cut]
-        if not damaged.strip() or damaged.rstrip() == text.rstrip():
+        if not damaged.strip():
+            continue
+        if damaged.rstrip() == text.rstrip():
+            # only trailing white space / the final line terminator is gone: the SAME file as far as content goes - judged as such
+            if damaged.endswith("\n") or damaged == text:
+                continue
+            n += 1
+            kind_, f_ = judge(fmt, snaps, damaged, "last-line-without-terminator")
+            outcomes[f"unterminated-last-line->{kind_}"] = outcomes.get(f"unterminated-last-line->{kind_}", 0) + 1
+            if f_ is not None:
+                f_.recipe = dict(recipe, only_cut=cut)
+                f_.detail = f"the text without its final line terminator ({len(text) - cut} trailing character(s) cut): " + f_.detail
+                fails.append(f_)
             continue
         if cut in optional_cuts or len(damaged.rstrip()) in optional_lens:
             outcomes["excluded:cut-at-a-record-boundary-of-an-optional-uncounted-block"] = outcomes.get("excluded:cut-at-a-record-boundary-of-an-optional-uncounted-block", 0) + 1
@@ -321,6 +333,7 @@ def _dedup(fails):
 
 # ---------------------------------------------------------------- line / token faults
 NUMERIC_BAD = ["x1y", "--", "1.2.3", "0x", "1e", "NaNo"]
+INT_BAD = ["4.3", "1e1", "2.", ".5", "3.0"]      # numbers, but not integers: invalid in count / atom-id columns
 TYPE_BAD = ["Qq", "Zz.3", "9", "Qq.ar"]   # unknown element; (unknown SUBTYPES of known elements are accepted by design)
 
 
@@ -453,6 +466,8 @@ def apply_fault(fmt, text, fault):
             return None   # bond lines and the end of atom lines have optional trailing fields: an inserted token yields another well-formed line
         if kind == "tok_bad":
             bad = (TYPE_BAD if fk in ("atype", "btype", "symbol") else NUMERIC_BAD)[fault[2] % (len(TYPE_BAD) if fk in ("atype", "btype", "symbol") else len(NUMERIC_BAD))]
+            if fk in ("bint", "count", "int") and fault[2] % 2:
+                bad = INT_BAD[(fault[2] // 2) % len(INT_BAD)]
             if fk == "symbol" and len(toks[ti]) == 2 and fault[2] % 3 == 0:
                 # a two-letter symbol whose LAST letter is damaged (Cl -> Cx): not an element, although its first letter is one
                 cand = toks[ti][0] + "x"
